@@ -148,7 +148,8 @@ Lemma rt_prefix tv a key iv rd rd' pos bs ts nc nm nc' nm' sec typ v1 v2 payload
     decrypt P rx (hdr5 typ v1 v2 (len body) ++ body)
       = Ok (payload, typ, mkHalf tv (Some c') None (ts + 1) nc' nm' sec) /\
     length body = (length payload + 24)%nat /\
-    firstn 8 body = seq8 ts.
+    firstn 8 body = seq8 ts /\
+    exists ad, body = seq8 ts ++ aead_seal P a key (aead_nonce c (seq8 ts)) ad payload.
 Proof.
   intros Hv Hpl Hseq c c' tx rx. subst tx rx c c'.
   set (hdr := hdr5 typ v1 v2 (len payload)).
@@ -156,7 +157,7 @@ Proof.
   assert (Lct : length ct = (length payload + 16)%nat) by apply seal_length.
   assert (Hv' : (tv =? V13) = false) by lia.
   exists (seq8 ts ++ ct).
-  split; [|split; [|split]].
+  split; [|split; [|split; [|split]]].
   - unfold encrypt. cbn [h_cipher].
     match goal with |- context [enc_explicit ?h ?c ?r] => change (enc_explicit h c r) with (@Ok bytes (seq8 ts)) end.
     cbn [bind]. unfold enc_cipher. cbn [c_kind h_vers]. rewrite Hv'.
@@ -182,6 +183,7 @@ Proof.
     unfold dec_mac. cbn [h_mac bind]. rewrite inc_seq_ok by exact Hseq. reflexivity.
   - rewrite app_length, seq8_length. lia.
   - apply firstn_app_exact. rewrite seq8_length. reflexivity.
+  - eexists. reflexivity.
 Qed.
 
 (* ---- TLS 1.2 ChaCha20-Poly1305: no explicit nonce, nonce = iv xor seq ---- *)
@@ -196,7 +198,8 @@ Lemma rt_xor12 tv a key iv rd rd' pos bs ts nc nm nc' nm' sec typ v1 v2 payload 
       = Ok (hdr5 typ v1 v2 (len body) ++ body, mkHalf tv (Some c) None (ts + 1) nc nm sec) /\
     decrypt P rx (hdr5 typ v1 v2 (len body) ++ body)
       = Ok (payload, typ, mkHalf tv (Some c') None (ts + 1) nc' nm' sec) /\
-    length body = (length payload + 16)%nat.
+    length body = (length payload + 16)%nat /\
+    exists ad, body = aead_seal P a key (aead_nonce c (seq8 ts)) ad payload.
 Proof.
   intros Hv Hpl Hseq c c' tx rx. subst tx rx c c'.
   set (hdr := hdr5 typ v1 v2 (len payload)).
@@ -204,7 +207,7 @@ Proof.
   assert (Lct : length ct = (length payload + 16)%nat) by apply seal_length.
   assert (Hv' : (tv =? V13) = false) by lia.
   exists ct.
-  split; [|split].
+  split; [|split; [|split]].
   - unfold encrypt. cbn [h_cipher].
     match goal with |- context [enc_explicit ?h ?c ?r] => change (enc_explicit h c r) with (@Ok bytes []) end.
     cbn [bind]. unfold enc_cipher. cbn [c_kind h_vers]. rewrite Hv'.
@@ -228,6 +231,7 @@ Proof.
     unfold dec_inner13. cbn [h_vers]. rewrite Hv'. cbn [bind fst snd].
     unfold dec_mac. cbn [h_mac bind]. rewrite inc_seq_ok by exact Hseq. reflexivity.
   - exact Lct.
+  - eexists. reflexivity.
 Qed.
 
 (* ---- TLS 1.3: inner content type, header as additional data ---- *)
@@ -242,7 +246,8 @@ Lemma rt_tls13 a key iv rd rd' pos bs ts nc nm nc' nm' sec typ v1 v2 payload rnd
       = Ok (hdr5 rtAppData v1 v2 (len body) ++ body, mkHalf V13 (Some c) None (ts + 1) nc nm sec) /\
     decrypt P rx (hdr5 rtAppData v1 v2 (len body) ++ body)
       = Ok (payload, typ, mkHalf V13 (Some c') None (ts + 1) nc' nm' sec) /\
-    length body = (length payload + 17)%nat.
+    length body = (length payload + 17)%nat /\
+    exists ad, body = aead_seal P a key (aead_nonce c (seq8 ts)) ad (payload ++ [typ]).
 Proof.
   intros Htyp Hpl Hseq c c' tx rx. subst tx rx c c'.
   set (n13 := len payload + 1 + N.of_nat aead_overhead).
@@ -252,7 +257,7 @@ Proof.
   { unfold ct. rewrite seal_length, app_length. cbn [length]. lia. }
   assert (Ln : len ct = n13) by (unfold len, n13, aead_overhead; rewrite Lct; unfold len; lia).
   exists ct.
-  split; [|split].
+  split; [|split; [|split]].
   - unfold encrypt. cbn [h_cipher].
     match goal with |- context [enc_explicit ?h ?c ?r] => change (enc_explicit h c r) with (@Ok bytes []) end.
     cbn [bind].
@@ -282,6 +287,7 @@ Proof.
     rewrite strip13_ok by exact Htyp. cbn [bind fst snd].
     unfold dec_mac. cbn [h_mac bind]. rewrite inc_seq_ok by exact Hseq. reflexivity.
   - exact Lct.
+  - eexists. reflexivity.
 Qed.
 
 (* ---- CBC + HMAC (TLS 1.0 implicit chained IV; TLS 1.1+ explicit random IV) ---- *)
@@ -456,14 +462,14 @@ Proof.
     subst tm.
     destruct (N.eq_dec tv V13) as [->|Hv].
     + destruct (rt_tls13 a key iv rd rd' pos bs ts tnc tnm rnc rnm tsec typ v1 v2 payload rnd Htyp Hlen Hseq)
-        as (body & He & Hd & Hl).
+        as (body & He & Hd & Hl & _).
       change (outer_typ V13 typ) with rtAppData. change (body_slack V13) with 17.
       exists body. eexists. eexists. split; [exact He|]. split; [exact Hd|].
       unfold synced, half_wf, cipher_match, len; cbn [h_vers h_mac h_seq h_secret h_cipher c_kind c_alg c_key c_iv c_pos c_bs].
       repeat split; eauto; try lia; try discriminate;
       try (intros c0 Hc0; inversion Hc0; subst c0; eexists; cbn; auto).
     + destruct (rt_xor12 tv a key iv rd rd' pos bs ts tnc tnm rnc rnm tsec typ v1 v2 payload rnd Hv Hpl Hseq)
-        as (body & He & Hd & Hl).
+        as (body & He & Hd & Hl & _).
       assert (Hv' : (tv =? V13) = false) by lia.
       unfold outer_typ, body_slack. rewrite Hv'.
       exists body. eexists. eexists. split; [exact He|]. split; [exact Hd|].
@@ -501,6 +507,42 @@ Proof.
     unfold synced, half_wf, cipher_match, len; cbn [h_vers h_mac h_seq h_secret h_cipher c_kind c_alg c_key c_iv c_pos c_bs c_read].
     repeat split; eauto; try lia; try discriminate;
     try (intros c0 Hc0; inversion Hc0; subst c0; eexists; cbn; auto).
+Qed.
+
+
+(* the shape of an AEAD record: header, explicit nonce (= sequence number, TLS 1.2 GCM only), then
+   Seal under the nonce derived from the sequence number *)
+Lemma encrypt_aead_form (tx rx : half) (typ v1 v2 : N) (payload rnd : bytes) (ci : cipher) :
+  synced tx rx -> h_cipher tx = Some ci -> c_kind ci = KAeadPrefix \/ c_kind ci = KAeadXor ->
+  typ <> 0 -> len payload <= maxPlaintext -> h_seq tx + 1 < 18446744073709551616 ->
+  exists tx' ad L,
+    encrypt P tx (hdr5 typ v1 v2 (len payload)) payload rnd
+      = Ok (hdr5 (outer_typ (h_vers tx) typ) v1 v2 L
+              ++ firstn (explicit_nonce_len tx) (seq8 (h_seq tx))
+              ++ aead_seal P (c_alg ci) (c_key ci) (aead_nonce ci (seq8 (h_seq tx))) ad
+                   (if h_vers tx =? V13 then payload ++ [typ] else payload), tx').
+Proof.
+  intros Hs Hci Hk Htyp Hlen Hseq.
+  destruct tx as [tv tc tm ts tnc tnm tsec], rx as [rv rc rm rs rnc rnm rsec].
+  unfold synced, half_wf in Hs. cbn [h_vers h_mac h_seq h_secret h_cipher] in *.
+  destruct Hs as (<- & <- & <- & <- & Hwf & Hm). subst tc.
+  destruct rc as [ci'|]; [|contradiction].
+  destruct ci as [k a key iv rd pos bs]. cbn [c_kind c_alg c_key] in *.
+  assert (Hpl : len payload < 65536) by (unfold maxPlaintext in Hlen; lia).
+  destruct Hk as [-> | ->].
+  - destruct Hwf as (-> & Hv).
+    destruct (rt_prefix tv a key iv rd rd pos bs ts tnc tnm tnc tnm tsec typ v1 v2 payload rnd Hv Hpl Hseq)
+      as (body & He & _ & _ & _ & ad & Hb).
+    assert (Hv' : (tv =? V13) = false) by lia.
+    unfold outer_typ. rewrite Hv'. eexists. exists ad. eexists. rewrite He, Hb. reflexivity.
+  - cbn in Hwf. subst tm. destruct (N.eq_dec tv V13) as [-> | Hv].
+    + destruct (rt_tls13 a key iv rd rd pos bs ts tnc tnm tnc tnm tsec typ v1 v2 payload rnd Htyp Hlen Hseq)
+        as (body & He & _ & _ & ad & Hb).
+      eexists. exists ad. eexists. rewrite He, Hb. reflexivity.
+    + destruct (rt_xor12 tv a key iv rd rd pos bs ts tnc tnm tnc tnm tsec typ v1 v2 payload rnd Hv Hpl Hseq)
+        as (body & He & _ & _ & ad & Hb).
+      assert (Hv' : (tv =? V13) = false) by lia.
+      unfold outer_typ. rewrite Hv'. eexists. exists ad. eexists. rewrite He, Hb. reflexivity.
 Qed.
 
 End RT.
